@@ -238,3 +238,94 @@ Definition spec_C08 (vs : list pv) (r : kres) : bool :=
       existsb (fun a => existsb (fun b => (fst a =? fst b) && rop_eqb (snd a) (RRange t1) && rop_eqb (snd b) (RRange t2)) K) K
   | KErr ESubkeys => existsb (fun v => match v with PSubkeys => true | _ => false end) vs
   end.
+
+(** * Foreign-key substitution with count-key threading (reference chains)
+
+    `ParsedValue::populate(args)` as `resolve_foreign_key_inner` applies it to the (already resolved) target:
+      Variable k          -> the argument named k if there is one
+      Component / Bloc    -> recursively
+      ForeignKey::Set(v)  -> v.populate(args): arguments reach through an already resolved reference
+      Ranges / Plurals    -> `args.get("var_count")`:
+                             None               => same count key, branches populated   (populate_with_new_key(self.count_key))
+                             a single variable  => that variable becomes the count key  (populate_with_new_key(new))
+                             a literal number   => the matching branch, populated; no count any more (populate_with_count_arg)
+    Which branch a literal selects (CLDR category of the locale / range matching) is an oracle: the argument carries
+    the index of the branch among `forms ++ [other]` (plural) or the branches (range). *)
+
+Inductive parg :=
+| PaVal (v : pv)                          (* the argument's value (strings are parsed, foreign keys in it resolved) *)
+| PaCountLit (choice : nat) (t : littype). (* a literal number: [choice] = index of the branch it selects (oracle) *)
+
+Definition parg_pv (a : parg) : pv := match a with PaVal v => v | PaCountLit _ t => PLit t end.
+Fixpoint alookup (k : key) (args : list (key * parg)) : option parg :=
+  match args with [] => None | (k', a) :: r => if k =? k' then Some a else alookup k r end.
+
+(** [cid] = the interned name `var_count` *)
+Fixpoint populate (cid : key) (args : list (key * parg)) (v : pv) {struct v} : pv :=
+  match v with
+  | PLit _ | PDefault | PSubkeys => v
+  | PVar k f => match alookup k args with Some a => parg_pv a | None => v end
+  | PComp k inner => PComp k (populate cid args inner)
+  | PBloc vs => PBloc (map (populate cid args) vs)
+  | PForeign inner => populate cid args inner
+  | PRanges ty ck bs =>
+      match alookup cid args with
+      | None => PRanges ty ck (map (populate cid args) bs)
+      | Some (PaVal (PVar k _)) => PRanges ty k (map (populate cid args) bs)
+      | Some (PaCountLit n _) => nth n (map (populate cid args) bs) (PLit LString)
+      | Some (PaVal _) => v                                     (* InvalidCountArg: outside the modelled domain *)
+      end
+  | PPlural ck forms other =>
+      match alookup cid args with
+      | None => PPlural ck (map (populate cid args) forms) (populate cid args other)
+      | Some (PaVal (PVar k _)) => PPlural k (map (populate cid args) forms) (populate cid args other)
+      | Some (PaCountLit n _) => nth n (map (populate cid args) forms ++ [populate cid args other]) (PLit LString)
+      | Some (PaVal _) => v
+      end
+  end.
+
+(** source description of a value that may contain references: the target is given by its own source description *)
+Inductive src :=
+| SVal (v : pv)
+| SRef (target : src) (args : list (key * sarg))       (* `$t(target, {args})` *)
+| SComp (k : key) (inner : src)                         (* `<k>..$t(..)..</k>` *)
+| SBloc (l : list src)                                  (* text and references side by side *)
+with sarg :=
+| SaVal (s : src)
+| SaCountLit (choice : nat) (t : littype).
+
+Fixpoint resolve_src (cid : key) (s : src) {struct s} : pv :=
+  match s with
+  | SVal v => v
+  | SRef target args =>
+      populate cid
+               (map (fun ka => (fst ka, match snd ka with
+                                        | SaVal a => PaVal (resolve_src cid a)
+                                        | SaCountLit n t => PaCountLit n t
+                                        end)) args)
+               (resolve_src cid target)
+  | SComp k inner => PComp k (resolve_src cid inner)
+  | SBloc l => PBloc (map (resolve_src cid) l)
+  end.
+
+(** `reduce`: a value made of literals only is one literal (several pieces are joined into a string) *)
+Fixpoint lits (v : pv) : option (list littype) :=
+  match v with
+  | PLit t => Some [t]
+  | PDefault | PSubkeys => Some []
+  | PForeign i => lits i
+  | PBloc vs =>
+      fold_right (fun x acc => match lits x, acc with Some a, Some b => Some (a ++ b) | _, _ => None end) (Some []) vs
+  | _ => None
+  end.
+Definition normalize (v : pv) : pv :=
+  match v with
+  | PBloc _ | PForeign _ =>
+      match lits v with Some [t] => PLit t | Some _ => PLit LString | None => v end
+  | _ => v
+  end.
+
+Definition resolve (cid : key) (s : src) : pv := normalize (resolve_src cid s).
+
+(** the count variables a value switches on, with their kind *)
+Definition count_keys (v : pv) : list (key * rop) := ev_counts (events v).
